@@ -348,10 +348,11 @@ pub fn family(cfg: &Cfg) -> Vec<Item> {
     // rest of the family, block mode
     for e in al::e1(1) {
         // comments do not influence states: the quick tier keeps the comment-free modifiers
-        if cfg.quick() && e.rules.iter().any(|r| !r.comments.is_empty()) {
+        let commented = e.rules.iter().any(|r| !r.comments.is_empty());
+        if cfg.quick() && commented {
             continue;
         }
-        push(&e, false, true, &mut items);
+        push(&e, false, !commented, &mut items);
     }
     for e in shortcut_family(true) {
         push(&e, false, true, &mut items);
@@ -394,6 +395,20 @@ pub fn run(cfg: &Cfg) -> Outcome {
         // experimentation only: never set by ./check
         items.truncate(n.parse().unwrap_or(usize::MAX));
     }
+    if let Ok(seg) = std::env::var("OHMC_SEGMENT") {
+        // experimentation only (never set by ./check): "full" | "deep" | "rest:<stride>"
+        items = items
+            .into_iter()
+            .enumerate()
+            .filter(|(i, it)| match seg.as_str() {
+                "full" => it.full,
+                "deep" => it.deep && !it.full,
+                s => !it.deep && !it.full && i % s.trim_start_matches("rest:").parse::<usize>().unwrap_or(1) == 0,
+            })
+            .map(|(_, it)| it)
+            .collect();
+    }
+    eprintln!("C02: {} items ({} full-window, {} deep block-mode, {} quick-depth block-mode)", items.len(), items.iter().filter(|i| i.full).count(), items.iter().filter(|i| i.deep && !i.full).count(), items.iter().filter(|i| !i.deep && !i.full).count());
     // contexts: no calendar, and (for expressions with a holiday selector only) a calendar.
     // Block mode uses the synthetic calendar (dates at both ends of the supported range); the
     // full-window mode uses the embedded French calendar instead: the real iterator walks day by
